@@ -51,8 +51,10 @@ TInit == /\ tid \in 1..Len(Traces)
          /\ vals = <<>> /\ ann = <<>> /\ pend = <<>> /\ tail = "none" /\ res = "ok"
          /\ cknown = TRUE /\ reform = FALSE /\ khid = FALSE
 
+\* (a disjunction or implication inside an action makes TLC branch: pure checks are evaluated as values)
+Chk(P)    == P = TRUE
 Either(e) == Same(e.res) /\ e.res \in {"ok", "ValueError"} /\ KeepX
-InDomain  == Tr.mode # "up" \/ UpDomain(cur)
+InDomain  == Chk(Tr.mode # "up" \/ UpDomain(cur))
 
 \* the witness of a sort: the stable permutation when it explains the observation, else occurrence by occurrence
 Occ(s, i)    == Cardinality({j \in 1..i : s[j] = s[i]})
@@ -61,27 +63,27 @@ Witness(kind, rev, ov, nv) ==
    IF Permute(ov, p) = nv THEN p
    ELSE [i \in 1..Len(nv) |-> CHOOSE j \in 1..Len(ov) : ov[j] = nv[i] /\ Occ(ov, j) = Occ(nv, i)]
 
-Written(e) ==      \* the checks on the text a with-block wrote
+Written(e) == Chk(  \* the checks on the text a with-block wrote
    /\ Valid(Anon(e.lay2))
    /\ ValsOf(Tr.mode, e.lay2) = vals
    /\ cknown => SameBag(Pairs(vals, FC(ann)), Pairs(vals, FC(AnnOf(Tr.mode, e.lay2))))
    /\ reform => /\ HasShape(Tr.mode, e.lay2)
                  /\ LET sp == Spans(Tr.mode, e.lay2) IN        \* every value but an unindented first one: len(name)+2 blanks
-                    \A k \in 1..Len(sp) : sp[k][1] > 2 => e.ind[sp[k][1] - 2] = Tr.namelen + 2
+                    \A k \in 1..Len(sp) : sp[k][1] > 2 => e.ind[sp[k][1] - 2] = Tr.namelen + 2)
 
 TStep ==
    /\ l <= Len(Tr.events)
    /\ LET e == Tr.events[l] IN
       /\ \/ /\ e.op = "open" /\ InDomain /\ Derive(Tr.mode, cur) /\ e.obs = vals' /\ UNCHANGED cur /\ chg' = FALSE
          \/ /\ e.op = "open" /\ ~InDomain /\ Len(Tr.events) = 1          \* the text of the last item is unclear: just read it
-            /\ e.res = "ok" \/ (KnownTrail /\ e.res = "ValueError" /\ PrintT(<<"KNOWNHIT", tid, "trail">>))
+            /\ Chk(e.res = "ok" \/ (KnownTrail /\ e.res = "ValueError" /\ PrintT(<<"KNOWNHIT", tid, "trail">>)))
             /\ res' = e.res /\ UNCHANGED <<vals, tail, ann, pend, cknown, reform, khid, cur, chg>>
          \/ /\ e.op = "reopen" /\ Same("ok") /\ KeepX /\ e.obs = vals /\ UNCHANGED <<cur, chg>>
          \/ /\ e.op = "append" /\ XAppend(e.v) /\ e.obs = vals' /\ UNCHANGED cur /\ chg' = TRUE
          \/ /\ e.op = "remove" /\ (IF LHas(vals, e.v) THEN XRemove(e.v) ELSE Either(e)) /\ e.obs = vals'
-            /\ UNCHANGED cur /\ chg' = (chg \/ LHas(vals, e.v))
+            /\ UNCHANGED cur /\ chg' = Chk(chg \/ LHas(vals, e.v))
          \/ /\ e.op = "replace" /\ (IF LHas(vals, e.v) THEN XReplace(e.v, e.w) ELSE Either(e)) /\ e.obs = vals'
-            /\ UNCHANGED cur /\ chg' = (chg \/ LHas(vals, e.v))
+            /\ UNCHANGED cur /\ chg' = Chk(chg \/ LHas(vals, e.v))
          \/ /\ e.op = "refset" /\ XRefSet(e.i, e.w) /\ e.obs = vals' /\ UNCHANGED cur /\ chg' = TRUE
          \/ /\ e.op = "refremove" /\ XRefRemove(e.i) /\ e.obs = vals' /\ UNCHANGED cur /\ chg' = TRUE
          \/ /\ e.op \in {"sep", "sep0"} /\ Tr.mode # "sp" /\ XAppendSep /\ e.obs = vals' /\ UNCHANGED cur /\ chg' = TRUE
@@ -89,22 +91,22 @@ TStep ==
          \/ /\ e.op = "cmt" /\ XAppendCmt(e.i) /\ e.obs = vals' /\ UNCHANGED <<cur, chg>>
          \/ /\ e.op = "reformat" /\ XReformat /\ e.obs = vals' /\ UNCHANGED cur /\ chg' = TRUE
          \/ /\ e.op = "sort"
-            /\ IsSortedPerm(e.kind, e.rev, vals, ann, e.obs, ann, FALSE)
+            /\ Chk(IsSortedPerm(e.kind, e.rev, vals, ann, e.obs, ann, FALSE))
             /\ XSortTo(e.obs, Permute(ann, Witness(e.kind, e.rev, vals, e.obs)))
             /\ UNCHANGED cur /\ chg' = TRUE
          \/ /\ e.op = "close" /\ e.res = "ok" /\ chg                     \* the field was written
-            /\ \/ vals = <<>>                                            \* (writing an EMPTY list is unspecified)
-               \/ (Written(e) /\ e.obs = vals /\ e.read = "ok")
+            /\ Chk(\/ vals = <<>>                                        \* (writing an EMPTY list is unspecified)
+                   \/ (Written(e) /\ e.obs = vals /\ e.read = "ok"))
             /\ cur' = e.lay2 /\ chg' = FALSE
             /\ vals' = vals /\ res' = "ok" /\ UNCHANGED <<ann, cknown, reform, khid>>
             /\ tail' = (IF tail = "none" THEN "nl" ELSE tail)            \* _update_field ends the token list with a newline
             /\ pend' = (IF tail = "none" /\ pend # <<>> THEN Append(pend, NL) ELSE pend)
          \/ /\ e.op = "close" /\ e.res = "ok" /\ ~chg                    \* nothing to write
-            /\ e.lay2 = Squeeze(cur) /\ (vals = <<>> \/ e.obs = vals)
+            /\ e.lay2 = Squeeze(cur) /\ Chk(vals = <<>> \/ e.obs = vals)
             /\ Same("ok") /\ KeepX /\ UNCHANGED <<cur, chg>>
          \/ /\ e.op = "close" /\ e.res = "ValueError" /\ chg
-            /\ \/ CloseMayRefuse
-               \/ (KnownHidden /\ XCloseMayRefuse(TRUE) /\ PrintT(<<"KNOWNHIT", tid, "hidden">>))
+            /\ Chk(\/ CloseMayRefuse
+                   \/ (KnownHidden /\ XCloseMayRefuse(TRUE) /\ PrintT(<<"KNOWNHIT", tid, "hidden">>)))
             /\ e.lay2 = Squeeze(cur)
             /\ Same("ValueError") /\ KeepX /\ UNCHANGED <<cur, chg>>
       /\ res' = e.res              \* the call returned / raised what the reference says
